@@ -267,6 +267,47 @@ theorem scram_exchange : ∀ p ∈ scramAlgs,
     rw [hfinal]
     rfl
 
+/-- the same exchange for a -PLUS mechanism over TLS: `c=` carries base64("p=" type ",," ‖ binding
+    data) and the proof is over that very field -/
+theorem scram_exchange_plus : ∀ p ∈ scramAlgs,
+    ∀ (ty data jid rnd user pw snonce salt : Bytes) (i : Nat) (ext : List Bytes),
+    Jid.node jid = some user → ty.length + 4 ≤ 56 → data.length ≤ 56 - (ty.length + 4) →
+    (∀ c ∈ snonce, c ≠ comma) → salt ≠ [] → 1 ≤ i → i < 2 ^ 32 → (∀ e ∈ ext, ExtOk e) →
+    (0 : UInt8) ∉ Rfc5802.serverFirstMessage snonce salt i ext →
+    pw.length < 2 ^ 60 → salt.length < 2 ^ 59 →
+    let serverFirst := Rfc5802.serverFirstMessage snonce salt i ext
+    let withoutProof := Rfc5802.clientFinalMessageWithoutProof (.p ty) data snonce
+    let authMessage := Rfc5802.AuthMessage (Rfc5802.clientFirstMessageBare user (scramNonce rnd)) serverFirst withoutProof
+    authMessage.length < 2 ^ 60 →
+    ∃ init proof,
+      scramInit true true ⟨some ty, some data⟩ jid rnd = some init ∧
+      handleScramChallenge p.1 init (some (Base64.encode serverFirst)) pw =
+        .ok (.resp (Base64.encode (Rfc5802.clientFinalMessageOf withoutProof proof))) ∧
+      Rfc5802.serverVerify p.2 (Rfc5802.storedKeyOf p.2 pw salt i) authMessage proof = true := by
+  intro p hp ty data jid rnd user pw snonce salt i ext hu hty hdl hn hs hi1 hi32 hext h0 hpw hsl
+  intro serverFirst withoutProof authMessage ham
+  have R := scramAlgs_realize p hp
+  obtain ⟨init, hinit, _, _, hfb, hcb⟩ := (scram_messages_wellformed jid rnd user hu).2.1 ty data hty hdl
+  have hsfne : serverFirst ≠ [] := by simp [serverFirst, Rfc5802.serverFirstMessage, Rfc5802.asc]
+  have hwp : withoutProof = Rfc5802.clientFinalWithoutProofOf init.channelBinding snonce := by
+    rw [hcb]
+    simp only [withoutProof, Rfc5802.clientFinalMessageWithoutProof, Lemmas.Base64.encode_eq_rfc4648]
+  refine ⟨init, Rfc5802.clientProofOf p.2 pw salt i authMessage, hinit, ?_,
+    server_accepts_rfc_client p.2 R.hmacLen pw salt i authMessage⟩
+  have hfinal := scramFinal_eq_spec R init.channelBinding init.firstBare pw snonce salt i ext hn hs hi1 hi32 hext hpw hsl
+    (by rw [hfb, ← hwp]; exact ham)
+  rw [hfb, ← hwp] at hfinal
+  have hene : Base64.encode serverFirst ≠ [] := encode_ne_nil _ hsfne
+  have hdec := decodeStr_encode serverFirst h0
+  unfold handleScramChallenge
+  cases he : Base64.encode serverFirst with
+  | nil => exact absurd he hene
+  | cons c r =>
+    rw [he] at hdec
+    simp only [hdec, hfb]
+    rw [hfinal]
+    rfl
+
 /-! ### robustness of the challenge parsers (no NULL dereference, no abort, for ANY server input) -/
 
 /-- `scram_parse_no_crash`: for every mechanism and EVERY byte string as server-first-message
